@@ -17,7 +17,7 @@ partial def loop (hin hout : IO.FS.Stream) : IO Unit := do
     match toks with
     | cmd :: rest =>
       let a := parseArgs rest
-      hout.putStrLn (if cmd == "hist" then handleHist a else if cmd == "mtx" then handleMarshal a else if cmd == "jdoc" then handleJsonDoc a else if cmd == "proto" then handleProto a else if cmd == "wev" then handleEvent a else if cmd == "g56" || cmd == "mar" || cmd == "tag" then handleGtid cmd a else handle cmd a)
+      hout.putStrLn (if cmd == "hist" then handleHist a else if cmd == "mtx" then handleMarshal a else if cmd == "jdoc" then handleJsonDoc a else if cmd == "proto" then handleProto a else if cmd == "errpkt" then handleErrPkt a else if cmd == "wev" then handleEvent a else if cmd == "g56" || cmd == "mar" || cmd == "tag" then handleGtid cmd a else handle cmd a)
     | [] => hout.putStrLn ""
   hout.flush
   loop hin hout
